@@ -5,7 +5,7 @@
    stands when the record is produced — identities, and attribute by attribute ABSATR or count / code / units / values.
    What remains per run: that the stored state at write time is the last accepted assignment plus the documented
    defaults (the harness computes the expectation from the operation list, not from dliswriter objects): see DESIGN. *)
-From DV Require Import Model.ApiDispatch Proofs.BuilderP Proofs.EflrP Model.EflrReader Proofs.StructP Proofs.FileP.
+From DV Require Import Model.ApiDispatch Proofs.BuilderP Proofs.EflrP Model.EflrReader Proofs.StructP Proofs.FileP Proofs.KeepP.
 
 Theorem C05_assign_value : forall hc st it idx r it',
   set_value hc st it idx r = OK it' -> (idx < length (i_attrs it))%nat ->
@@ -60,9 +60,52 @@ Theorem C05_api_frame : forall ps st o ps' st' out j,
   attrs_at st' j = attrs_at st j \/ (exists idx u r, o = OAssign j idx u r).
 Proof. exact step_attrs_frame. Qed.
 
+(* what a write may change in the specification it is given (Proofs/KeepP.v). For every state reachable by API calls and
+   writes in any order, every write (in any mode, successful or not), every object i and attribute index idx:
+   the object keeps its type; the VALUE of the attribute after the write differs from the one before only at one of the
+   listed (type, attribute) sites, and there only if the value before was unset / falsy (or the attribute is a channel's
+   REPRESENTATION-CODE, which always follows the cast dtype); the UNITS differ only at a listed units site and only if there
+   were none. Hence every value and unit the user gave reaches the encoder (C05_record_is_the_set) unchanged, and an
+   attribute never assigned, outside those sites, is absent in the file; the sites are the documented write-time defaults. *)
+Print default_sites.
+Print unit_sites.
+Print site.
+Print derived.
+Theorem C05_write_changes_only_defaults : forall l ps hc w,
+  let st := snd (run_actions ps b_init l) in
+  let st' := fst (write hc st w) in
+  forall i idx,
+    let ty := i_ty (item_at st i) in
+    let v := fst (get_attr (item_at st i) idx) in let v' := fst (get_attr (item_at st' i) idx) in
+    let u := snd (get_attr (item_at st i) idx) in let u' := snd (get_attr (item_at st' i) idx) in
+    i_ty (item_at st' i) = ty
+    /\ (v' <> v -> site default_sites ty idx = true /\ (spv_truthy v = false \/ derived ty idx = true))
+    /\ (u' <> u -> site unit_sites ty idx = true /\ u = None).
+Proof. exact write_changes_only_defaults. Qed.
+
+(* non-vacuity: an origin (FILE-SET-NUMBER given, FILE-ID not), a channel and a frame; the write fails for want of data,
+   after check_objects filled in the defining origin's FILE-ID from the header: the given value is kept, the default
+   appears at a listed site whose value was unset *)
+Example C05_write_default_ex :
+  let ops := [AOp (OAddLF (RStr [72] HNone) (RInt 1));
+              AOp (OAddOrigin 0 (RStr [79] HNone) None RNone [(attr_index T_ORIGIN [102;105;108;101;95;115;101;116;95;110;117;109;98;101;114], PVal (RInt 7))]);
+              AOp (OAddChannel 0 (RStr [67] HNone) None RNone [] false None None None);
+              AOp (OAddFrame 0 (RStr [70] HNone) None RNone (RList [RRef 1]) [])] in
+  let st := snd (run_actions p_init b_init ops) in
+  let w := {| w_data := None; w_from := 0; w_to := None; w_frames := []; w_seq := 1; w_vrl := 8192; w_ident := [85] |} in
+  let st' := fst (write false st w) in
+  let fid := aidx T_ORIGIN n_file_id in let fsn := attr_index T_ORIGIN [102;105;108;101;95;115;101;116;95;110;117;109;98;101;114] in
+  length (b_items st) = 3%nat
+  /\ fst (get_attr (item_at st 0) fid) = SPNone /\ fst (get_attr (item_at st' 0) fid) = SPScalar (SStr [72])
+  /\ site default_sites T_ORIGIN fid = true
+  /\ fst (get_attr (item_at st' 0) fsn) = fst (get_attr (item_at st 0) fsn) /\ fst (get_attr (item_at st 0) fsn) <> SPNone
+  /\ exists e, snd (write false st w) = Err e.
+Proof. vm_compute. repeat split; try discriminate. eexists. reflexivity. Qed.
+
 Print Assumptions C05_assign_value.
 Print Assumptions C05_assign_units.
 Print Assumptions C05_value_readback.
 Print Assumptions C05_record_is_the_set.
 Print Assumptions C05_reachable_states_satisfy_the_invariant.
 Print Assumptions C05_api_frame.
+Print Assumptions C05_write_changes_only_defaults.
